@@ -54,7 +54,7 @@ var ivMs = 1000
 // aligned second startSec (relative to the epoch) and returns the admitted count per interval.
 func demand(startSec, secs, perSec int) []int {
 	var per []int
-	for s := 0; s < secs*1000/ivMs; s++ {
+	for s := 0; s < (secs*1000+ivMs-1)/ivMs; s++ {
 		n := 0
 		for k := 0; k < perSec; k++ {
 			hx.C.SetMs(hx.Epoch + uint64(startSec)*1000 + uint64(s*ivMs) + uint64(k*ivMs)/uint64(perSec))
@@ -78,7 +78,7 @@ func drawCfg(t *rapid.T) cfg {
 		maxP = 2
 	}
 	return cfg{T: T, P: uint32(rapid.IntRange(1, maxP).Draw(t, "P")), CF: uint32(rapid.SampledFrom([]int{0, 2, 3, 5, 10}).Draw(t, "CF")),
-		I: uint32(rapid.SampledFrom([]int{0, 0, 0, 1000, 500, 250}).Draw(t, "statIntervalMs"))}
+		I: uint32(rapid.SampledFrom([]int{0, 0, 0, 0, 1000, 500, 250, 2000}).Draw(t, "statIntervalMs"))}
 }
 
 func TestWarmUpEnvelope(t *testing.T) {
@@ -91,12 +91,21 @@ func TestWarmUpEnvelope(t *testing.T) {
 		starveShape := g.T/cf <= 1 // "<= 1": at T/cf == 1 the computed cold threshold can round to just below 1
 		truncShape := uint64(2*float64(g.P)*g.T/(1+cf)) == 0
 		exP9 := hx.Known("P9")
+		// P28 (known): with a statistic interval above 1 s the refill (threshold tokens per second) outruns the drain
+		// (at most threshold per interval), so the rule never leaves the cold rate
+		slowShape := ivMs > 1000
+		exP28 := hx.Known("P28")
 		sat := int(math.Ceil(3 * g.T))
 		if sat < 3 {
 			sat = 3
 		}
 		warm := int(2*g.P + 2)
 		scenario := rapid.IntRange(0, 5).Draw(t, "scenario")
+		if slowShape && exP28 {
+			// only the clause "never above the threshold" is asserted for this shape (arbitrary demand phases)
+			scenario = 3
+			c.Excluded("P28")
+		}
 		c.Op("T=%v period=%ds coldFactor=%d statInterval=%dms scenario=%d", g.T, g.P, g.CF, g.iv(), scenario)
 		coldBound := int(math.Ceil(g.T/cf)) + 1
 		switch scenario {
@@ -375,6 +384,20 @@ func TestP_RegressP27(t *testing.T) {
 		if per[0] > 3 {
 			t.Fatalf("warm-up rule T=10 period=4 s coldFactor=5: after 4 req/s for 6 s and 10 s idle the first second admitted %d, cold rate is T/coldFactor = 2 (balance stuck at the warning line)", per[0])
 		}
+		c.NonTrivial()
+	})
+}
+
+// P28 (known): a warm-up rule with a statistic interval above one second never leaves the cold rate.
+func TestP_KnownP28(t *testing.T) {
+	hx.Plain(t, func(c *hx.Case) {
+		hx.Reset(hx.Epoch)
+		flow.LoadRules([]*flow.Rule{{Resource: "w", Threshold: 10, TokenCalculateStrategy: flow.WarmUp, ControlBehavior: flow.Reject, WarmUpPeriodSec: 2, WarmUpColdFactor: 3, StatIntervalInMs: 2000}})
+		ivMs = 2000
+		per := demand(0, 60, 30)
+		ivMs = 1000
+		c.Op("T=10 per 2000 ms, P=2 CF=3, 30 requests per interval for 60 s: admitted per interval %v", per)
+		hx.Witness(t, "C11", "P28", "warm-up rule with StatIntervalInMs > 1000 (Threshold 10 per 2000 ms, period 2 s, cold factor 3): under saturating demand for 60 s the admitted count stays at the cold rate (3 per interval) and never reaches the threshold (the bucket is refilled with Threshold tokens per second but drained with at most Threshold per interval)", per[len(per)-1] < 10)
 		c.NonTrivial()
 	})
 }
